@@ -45,7 +45,7 @@ def make_files(d: Path) -> dict:
     (d / "K2.krome").write_text("@format:idx,R,R,P,P,Tmin,Tmax,rate\n1,C,H,CH,,10,280,6.59d-11\n2,CH,H,C,H2,NONE,.LE.8.d2,4.67e-10*(T32)**(-5.0e-01)\n")
     (d / "K2b.krome").write_text("@format:idx,R,R,P,P,rate\n3,C,H2,CH,H,1.0d-12*exp(-1.0d3*invT)\n")
     # default column layout (no @format line): idx,r,r,r,p,p,p,p,tmin,tmax,rate
-    (d / "K2c.krome").write_text("11,C,CH,,H,C2,,,10,280,6.59d-11\n13,H,H,H,H2,H,,,NONE,.LE.300,2.0d-31*(T32)**(-1.0d0)\n")
+    (d / "K2c.krome").write_text("@common:user_Av\n@var:ncolH=2.5d20*user_Av\n11,C,CH,,H,C2,,,10,280,6.59d-11\n13,H,H,H,H2,H,,,NONE,.LE.300,2.0d-31*(T32)**(-1.0d0)\n")
     (d / "K2bad.krome").write_text("@common:user_leak\n@format:idx,R,P,rate\n4,CH,C,1.0d-15*user_leak\n5,Hy,H,1.0d-10\n")
     import encoders
     lrec = lambda r, p_, code, a=1.0, idx=1: {"r": r, "p": p_, "a": a, "b": 0.0, "c": 0.0, "tmin": 5.0, "tmax": 41000.0, "idx": idx, "code": code}
